@@ -60,8 +60,8 @@ MANIFEST = dict(
          "vasprintf; value-level behaviour of json_object_object_add / json_object_array_put_idx (C06/C07); allocation success (C08). "
          "Lookup theorems assume a non-NULL document (API precondition; get(NULL, p) = EINVAL is proved separately). The model is hand-written: "
          "theorems are about the model, the correspondence run is testing.",
-    technique="Lean 4 proof (refinement of the buffer-level walk to a token-level evaluator, induction over the token list) +  + agreement theorems with Lean definitions translated from the current C source (clang AST) on every run"
-              "model/implementation/RFC-evaluator correspondence run",
+    technique="Lean 4 proof (refinement of the buffer-level walk to a token-level evaluator, induction over the token list) + "
+              "model/implementation/RFC-evaluator correspondence run + agreement theorems with Lean definitions translated from the current C source (clang AST) on every run",
     design="6/C12")
 
 # ----------------------------------------------------------------------------- trees
